@@ -417,6 +417,17 @@ pub struct Report {
     pub exhaustive: bool,
 }
 
+/// CPU time (user + system, all threads) this process has used so far, in seconds
+/// (/proc/self/stat, fields 14 and 15, in clock ticks of 1/100 s)
+pub fn process_cpu_secs() -> Option<f64> {
+    let t = std::fs::read_to_string("/proc/self/stat").ok()?;
+    let rest = &t[t.rfind(')')? + 1..];
+    let f: Vec<&str> = rest.split_whitespace().collect();
+    let utime: f64 = f.get(11)?.parse().ok()?;
+    let stime: f64 = f.get(12)?.parse().ok()?;
+    Some((utime + stime) / 100.0)
+}
+
 pub fn now_secs() -> u64 {
     std::time::SystemTime::now().duration_since(std::time::UNIX_EPOCH).unwrap().as_secs()
 }
@@ -920,6 +931,14 @@ pub fn stats_from_json(v: &Value) -> Stats {
     }
     if let Some(a) = v["oracle_bugs"].as_array() {
         st.oracle_bugs = a.iter().filter_map(|x| x.as_str().map(|s| s.to_string())).collect();
+    }
+    if let Some(a) = v["notes"].as_array() {
+        st.notes = a.iter().filter_map(|x| x.as_str().map(|s| s.to_string())).collect();
+    }
+    if let Some(m) = v["extra"].as_object() {
+        for (k, x) in m {
+            st.extra.insert(k.clone(), x.clone());
+        }
     }
     st
 }
